@@ -102,7 +102,7 @@ class Scenario:
     DEFAULTS = dict(
         htlcs=None, invoices=None, policy=None, cltv_delta=None, mpp_timeout_s=60, allow_self=True,
         store_init='free', max_parts=1, pay_outcomes=('complete', 'failed'), faults=0, fault_methods=(),
-        fault_codes=((-1, 'Rpc'),), write_faults=0, crash=0, crash_after_pays=0, pay_seq=None, crash_reduced=True, crash_needs_live_part=False, timers=True, spurious=False, xpay=False,
+        fault_codes=((-1, 'Rpc'),), write_faults=0, crash=0, crash_after_pays=0, pay_seq=None, stale_blocks=False, real_height_update=False, crash_reduced=True, crash_needs_live_part=False, timers=True, spurious=False, xpay=False,
         height=None, blocks=0, wait_fail_codes=(204,), deliver_in_order=True, payee_releases=True,
         rng_free=True, max_total_parts=3, parts_can_fail=True, deliver_after_response=False, eager_tasks=False, strict_por=False,
     )
@@ -176,6 +176,8 @@ class Scenario:
         pol = st.roots['policy']
         rpc = Adt('rpc::Rpc', None, {0: Seq([], 'str', tag='rpcfile')})
         hmx = TMutex(env.height, 'height')
+        st.roots['height0'] = env.height
+        st.roots['height_applied'] = env.height
         pmx = TMutex(HMap(), 'payments')
         st.mutexes = [x for x in st.mutexes if x.label not in ('height', 'payments')] + [hmx, pmx]
         bw = Adt('block_watcher::BlockWatcher', None, {0: arc(rpc), 1: arc(hmx)}, ['rpc', 'current_height'])
@@ -315,14 +317,30 @@ class Scenario:
         return f
 
     def _block(self, m):
+        """A height reaches the plugin.  Default: a new tip, applied atomically (update_height itself is C20).
+        With `real_height_update` the crate's own update_height runs as a task on the shared height mutex, and with
+        `stale_blocks` the height told may also be an old one (late poll answer, re-org notification): the highest
+        height the plugin has finished processing is tracked in roots['height_applied'] for the oracle."""
         st = m.st
+        cfg = self.cfg
         st.roots['blocks_done'] = st.roots.get('blocks_done', 0) + 1
         nh = m.fresh('height')
-        m.pc.append(sym.and_(sym.gt(nh, st.env.height), sym.in_range(nh, U32)))
-        st.env.height = nh
-        # block_added notification handled atomically (update_height is verified separately in C20)
+        stale = cfg['stale_blocks'] and m.choose(2, 'block.stale?') == 1
+        if stale:
+            m.pc.append(sym.and_(sym.ge(nh, 0), sym.le(nh, st.env.height)))
+        else:
+            m.pc.append(sym.and_(sym.gt(nh, st.env.height), sym.in_range(nh, U32)))
+            st.env.height = nh
+        st.roots.setdefault('block_heights', []).append(nh)
         hmx = st.roots['hmx']
-        hmx.cell.v = nh
+        if cfg['real_height_update']:
+            body = self.c.body('update_height')
+            fut = m.call_body(body, [nh, arc(hmx)])
+            t = st.sched.new_task('blk%d' % st.roots['blocks_done'], fut)
+            st.roots.setdefault('blk_tasks', {})[t.tid] = nh
+        elif not stale:
+            hmx.cell.v = nh
+            st.roots['height_applied'] = nh
         m.event('block', nh)
 
     def _crash(self, m):
@@ -469,6 +487,11 @@ class Scenario:
         # on the node's state (datastore, parts, height) and on which HTLCs were answered.  A crash is therefore offered
         # only at the first environment choice after a step that changed one of those; a crash anywhere else equals the
         # crash at the latest such point (calls in flight at a crash never land in this model either way).
+        for tid, nh in list(st.roots.get('blk_tasks', {}).items()):
+            if st.sched.tasks[tid].status == 'done':
+                del st.roots['blk_tasks'][tid]
+                cur = st.roots.get('height_applied', st.roots['height0'])
+                st.roots['height_applied'] = sym.ite(sym.gt(nh, cur), nh, cur)
         if self.cfg['crash']:
             if label.startswith(('lin datastore#', 'pay#', 'part', 'block arrives')) or finished:
                 st.roots['crash_ok'] = True
